@@ -3547,6 +3547,12 @@ var ceilLogTable = []struct{ fn, quantity, why string }{
 	{"utils/bignum.(Polynomial).Depth", "Degree()", "a polynomial of degree d needs ceil(log2 d) multiplications in depth"},
 }
 
+// floorSqrtTable: the square root of the quantity is rounded *down* (documented `floor(sqrt(#Qi))`): an extra auxiliary
+// prime of 61 bits takes a shipped default set above the modulus its identifier claims.
+var floorSqrtTable = []struct{ fn, quantity, why string }{
+	{"circuits/ckks/bootstrapping.(ParametersLiteral).GetLogP", "NumberOfQi", "the documented default is 61 x max(1, floor(sqrt(#Qi))) auxiliary bits: rounding to nearest or up adds a 61-bit prime to the default sets that leave LogP unset"},
+}
+
 func scanCeilLog(c *core.Ctx) []ob {
 	var out []ob
 	n := 0
@@ -3633,13 +3639,72 @@ func scanCeilLog(c *core.Ctx) []ob {
 			}
 		}
 	})
+	// square roots that must be rounded down
+	c.FuncDecls(func(pk *packages.Package, file *ast.File, fd *ast.FuncDecl) {
+		if fd.Body == nil {
+			return
+		}
+		fkey := core.FuncKey(pk, fd)
+		for _, e := range floorSqrtTable {
+			if e.fn != fkey {
+				continue
+			}
+			info := pk.TypesInfo
+			pm := parentMapCached(fd)
+			var sites []ast.Node
+			var badSite ast.Node
+			badWhy := ""
+			ast.Inspect(fd.Body, func(x ast.Node) bool {
+				call, ok := x.(*ast.CallExpr)
+				if !ok || len(call.Args) != 1 || !strings.Contains(exprString(call.Args[0]), e.quantity) {
+					return true
+				}
+				fn := calleeFunc(info, call)
+				if fn == nil || fn.Pkg() == nil || fn.Pkg().Path() != "math" || fn.Name() != "Sqrt" {
+					return true
+				}
+				sites = append(sites, call)
+				// the first enclosing operation decides the rounding: an integer conversion or math.Floor rounds down
+				for p := pm[ast.Node(call)]; p != nil; p = pm[p] {
+					if _, isParen := p.(*ast.ParenExpr); isParen {
+						continue
+					}
+					if pc, ok := p.(*ast.CallExpr); ok {
+						if tv, ok := info.Types[pc.Fun]; ok && tv.IsType() {
+							if b, ok := tv.Type.Underlying().(*types.Basic); ok && b.Info()&types.IsInteger != 0 {
+								return true // truncation: floor for a non-negative value
+							}
+						}
+						if pf := calleeFunc(info, pc); pf != nil && pf.Pkg() != nil && pf.Pkg().Path() == "math" && pf.Name() == "Floor" {
+							return true
+						}
+						badSite, badWhy = call, "it goes through "+exprString(pc.Fun)+" before it is truncated"
+						return true
+					}
+					badSite, badWhy = call, "it enters "+exprString(p.(ast.Expr))+" before it is truncated"
+					return true
+				}
+				return true
+			})
+			n++
+			key := fmt.Sprintf("CEILLOG:%s#sqrt(%s)", fkey, e.quantity)
+			switch {
+			case len(sites) == 0:
+				out = append(out, withProps(infoOb("CEILLOG", key, c.Rel(fd.Pos()), "the function no longer takes a square root of "+e.quantity+": not decided"), "C19", "C18"))
+			case badSite != nil:
+				out = append(out, withProps(violOb("CEILLOG", key, c.Rel(badSite.Pos()), fmt.Sprintf("%s: the square root of %s is not rounded down (%s); %s", fkey, e.quantity, badWhy, e.why)), "C19", "C18"))
+			default:
+				out = append(out, withProps(okOb("CEILLOG", key, c.Rel(fd.Pos()), "the square root of the quantity is truncated (rounded down)", true), "C19", "C18"))
+			}
+		}
+	})
 	c.Stats["ceillog_fns"] = n
 	return out
 }
 
 func init() {
-	core.Register(&core.Rule{Name: "CEILLOG", Props: []string{"C16", "C13"},
-		Doc: "in the functions of a frozen table (collective refresh head-room, polynomial depth), every base-2 logarithm taken of the named count is in a rounding-up form: inside math.Ceil, or bits.Len(q-1); truncation, Floor, Round and bits.Len(q)-1 are reported",
+	core.Register(&core.Rule{Name: "CEILLOG", Props: []string{"C16", "C13", "C19", "C18"},
+		Doc: "in the functions of a frozen table (collective refresh head-room, polynomial depth), every base-2 logarithm taken of the named count is in a rounding-up form: inside math.Ceil, or bits.Len(q-1); truncation, Floor, Round and bits.Len(q)-1 are reported; in a second table (default number of auxiliary primes) the square root of the named count is truncated or floored before anything else",
 		Run: func(c *core.Ctx) []ob {
 			out := scanCeilLog(c)
 			for _, o := range control(c, "CEILLOG", scanCeilLog, "lvfixture.minLevelFor") {
